@@ -13,6 +13,7 @@ def sh(*a, **k): return subprocess.run(a, capture_output=True, text=True, **k)
 if sh('git', '-C', '/repo', 'status', '--porcelain', '--untracked-files=no').stdout.strip():
     print('refusing: /repo has uncommitted changes'); sys.exit(2)
 head = sh('git', '-C', '/repo', 'rev-parse', '--short', 'HEAD').stdout.strip()
+vhead = sh('git', '-C', ROOT, 'rev-parse', '--short', 'HEAD').stdout.strip()
 missed = []
 for n in names:
     d = os.path.join(SEEDED, n)
@@ -39,6 +40,7 @@ for n in names:
         sh('git', '-C', '/repo', 'clean', '-fdq', '--', 'rscel/src', 'rscel-macro/src', 'extensions')
     meta['results'] = results
     meta['results_at_repo_commit'] = head
+    meta['results_at_verif_commit'] = vhead
     meta['detected_by'] = [c for c, v in results.items() if v['exit'] == 1]
     json.dump(meta, open(mp, 'w'), indent=1); open(mp, 'a').write('\n')
     if meta.get('expect_detected', True) and not meta['detected_by']:
